@@ -2,6 +2,7 @@ package scen
 
 import (
 	"fmt"
+	"strconv"
 	"math/rand/v2"
 	"strings"
 	"sync"
@@ -45,11 +46,36 @@ func (c19) Gen(r *rand.Rand, tier string, run int) *core.Case {
 			c.Ops = append(c.Ops, core.Op{Kind: "proxy", Actor: g, X: int64(r.IntN(servers + 1)), Y: int64(r.IntN(2))})
 		}
 	}
+	// a second phase after something happened to the session's world: the
+	// connection to one endpoint is reset by its server (the session must
+	// notice, forget the dead connection and dial again), and / or a service
+	// registered after the session was created must be reachable through it
+	if r.IntN(3) == 0 {
+		c.Batch = "second-phase"
+		c.Params["break"] = r.IntN(3)       // 0 no; 1 reset, then quiescence; 2 reset racing with the requests
+		c.Params["break_addr"] = r.IntN(servers + 1)
+		c.Params["late"] = r.IntN(2)
+		if c.Params["break"] == 0 {
+			c.Params["late"] = 1
+		}
+		m := 2 + r.IntN(4)
+		for g := 0; g < m; g++ {
+			k := 1 + r.IntN(2)
+			for i := 0; i < k; i++ {
+				// X: service, servers+1 = the late one
+				c.Ops = append(c.Ops, core.Op{Kind: "proxy2", Actor: 100 + g, X: int64(r.IntN(servers + 2)), Y: int64(r.IntN(2))})
+			}
+		}
+	}
 	return c
 }
 
 type c19state struct {
-	addrs []string
+	addrs   []string
+	broken  string // endpoint whose connection was reset
+	racing  bool
+	phase2  int64 // sequence number at which the second phase started
+	lateOK  bool
 }
 
 func (c19) Run(c *core.Case, env *core.Env) {
@@ -102,9 +128,13 @@ func (c19) Run(c *core.Case, env *core.Env) {
 		env.Violate("session-refused", "%v", err)
 		return
 	}
+	phase := func(kind string) {
 	by := map[int][]core.Op{}
 	var actors []int
 	for _, op := range c.Ops {
+		if op.Kind != kind {
+			continue
+		}
 		if _, ok := by[op.Actor]; !ok {
 			actors = append(actors, op.Actor)
 		}
@@ -118,6 +148,12 @@ func (c19) Run(c *core.Case, env *core.Env) {
 			zzsim.SetNode("client")
 			for i, op := range by[a] {
 				name := fmt.Sprintf("Probe%d", op.X)
+				if int(op.X) > c.P("servers", 1) {
+					if !st.lateOK {
+						continue
+					}
+					name = "ProbeLate"
+				}
 				h := env.Invoke(a+1, "proxy", name)
 				p, err := sess.Proxy(name, 1)
 				env.Return(h, "", err)
@@ -141,10 +177,54 @@ func (c19) Run(c *core.Case, env *core.Env) {
 		}(a)
 	}
 	wg.Wait()
+	}
+	phase("proxy")
+	env.S.Quiesce()
+	if c.P("late", 0) == 1 {
+		zzsim.SetNode("server0")
+		_, err := dsrv.NewService("ProbeLate", probe.ProbeObject(&ProbeImpl{Env: env, Obj: 77}))
+		zzsim.SetNode("harness")
+		if err != nil {
+			env.Violate("harness/setup", "late service: %v", err)
+			return
+		}
+		st.lateOK = true
+		env.S.Quiesce() // the session has heard of it
+		env.Probe("late-service")
+	}
+	if mode := c.P("break", 0); mode > 0 {
+		addr := st.addrs[c.P("break_addr", 0)%len(st.addrs)]
+		if addr != ServerAddr {
+			n := 0
+			for _, cn := range env.NW.Conns() {
+				if cn.Node() == "client" && !cn.Dead() && "tcp://"+cn.RemoteAddr().String() == addr {
+					cn.Peer().Abort()
+					n++
+				}
+			}
+			if n > 0 {
+				st.broken = addr
+				env.Probe("connection-reset-by-server")
+				if mode == 1 {
+					env.S.Quiesce() // the session has noticed
+				} else {
+					st.racing = true
+				}
+			}
+		}
+	}
+	st.phase2 = zzsim.Seq()
+	phase("proxy2")
 	env.S.Quiesce()
 	// all proxies still work afterwards: one more call per service
-	for i := range st.addrs {
+	for i := 0; i <= len(st.addrs); i++ {
 		name := fmt.Sprintf("Probe%d", i)
+		if i == len(st.addrs) {
+			if !st.lateOK {
+				break
+			}
+			name = "ProbeLate"
+		}
 		zzsim.SetNode("client")
 		h := env.Invoke(90, "proxy", name)
 		p, err := sess.Proxy(name, 1)
@@ -175,11 +255,26 @@ func (c19) Check(c *core.Case, env *core.Env, res zzsim.Result, v *core.Verdict)
 		}
 		v.OpsDone++
 		if !h.OK {
-			bad(h.Kind+"-failed", "a request for a registered service failed: %s", h)
+			// requests racing with the reset of their endpoint's connection
+			// may fail (the session may not have noticed yet); the requests
+			// made after quiescence (client 90) may not
+			name := h.Arg
+			if _, n, ok := strings.Cut(h.Arg, "@"); ok {
+				name = n
+			}
+			idx, _ := strconv.Atoi(strings.TrimPrefix(name, "Probe"))
+			if st.racing && h.Client > 100 && h.Call >= st.phase2 && name != "ProbeLate" && idx < len(st.addrs) && st.addrs[idx] == st.broken {
+				env.Probe("request-failed-while-racing-with-reset")
+			} else {
+				bad(h.Kind+"-failed", "a request for a registered service failed: %s", h)
+			}
 		}
 		if h.Kind == "call" && h.OK {
 			key, name, _ := strings.Cut(h.Arg, "@")
 			obj := strings.TrimPrefix(name, "Probe")
+			if obj == "Late" {
+				obj = "77"
+			}
 			if !strings.HasPrefix(h.Out, key+":") || !strings.Contains(h.Out, "|o"+obj+"|") {
 				bad("wrong-reply", "%s returned %q", h, h.Out)
 			}
